@@ -75,6 +75,26 @@ CHECKS.update({
          're-assembled, and (class, mnemonic) compared with llvm-mc through a reviewed relation table; unclaimed words must not decode.',
          'Trusts llvm-mc 14 and the reviewed table mc/ppc_llvm_pairs.json.', '4 C18'),
 })
+CHECKS.update({
+ 'C02': ('exploration', 'bounded exhaustive enumeration of (line, candidate) pairs against reference disassembler and assembler',
+         'Lines rendered from structured specs (whole assembler vocabulary x operand-shape alphabet incl. every width boundary immediate, arity 0..2, '
+         '+ corpus for 3-operand forms); EVERY candidate of asm(line) is decoded by GNU objdump and its normal form compared with the spec\'s '
+         '(GNU as adjudicates spelling conventions); the AT&T direction feeds binutils\' transliteration to asm_att and compares every candidate.',
+         'Trusts GNU objdump/as 2.40 and the normal form of mc/x86ref.py. Shape alphabet, not every displacement.', '4 C02'),
+ 'C03': ('exploration', 'bounded exhaustive enumeration with a round-trip (metamorphic) oracle; GNU as decides "canonical"',
+         '(a) every accepted line x every distinct candidate: dis accepts it, consumes it entirely, and it is among asm(str(dis(b))). (b) every string '
+         'of S_x86 that is canonical (GNU as of objdump\'s AT&T text reproduces it, no superfluous prefix) is among asm(str(dis(b))).',
+         'Direct branches are excluded from (b) (objdump prints slot-dependent absolute targets).', '4 C03'),
+ 'C09': ('exploration', 'bounded exhaustive enumeration of decodable strings x 3 renderings against GNU as/objdump and the miasmX parsers',
+         'Every distinct decodable string of S_x86 without superfluous prefix: the Intel, AT&T(binutils) and AT&T(objdump) renderings are assembled '
+         'by GNU as in the matching mode and must denote the original instruction (normal form); canonical strings must be reproduced by the '
+         'matching miasmX parser from the rendering.',
+         'Relative branches and absolute numeric memory operands are excluded from the GNU as part, as the property says.', '4 C09'),
+ 'C19': ('exploration', 'bounded exhaustive enumeration with metamorphic oracle (equality of candidate sets across spellings)',
+         'Every accepted line of L_asm x every applicable presentation-only rewrite (thorough: all compatible pairs) must give the identical candidate '
+         'set; the AT&T transliteration by binutils must give the identical set through asm_att.',
+         'No external oracle for Intel spellings; binutils supplies the AT&T text.', '4 C19'),
+})
 PENDING = {}
 
 def main():
